@@ -1,1 +1,94 @@
-From VP Require Import Base.Tactics Store.Model Store.Run.
+(* Store/Props.v — the C21 property theorems (statements only; proofs in ProofsMgr.v / ProofsC21.v).
+
+   Reading of the property text:
+   * a history is a list of events (Model.ev): ENew = (re)start of the process (CheckpointManager::new),
+     ESave d = checkpoint() running to completion, ECrash d k torn = checkpoint() cut by a process crash
+     after k file-system mutations (torn = Some t: t bytes of the temp-file write reached the disk),
+     ECorrupt b = fault: the newest checkpoint file now holds b.
+   * "completely written" = the rename onto the final name completed; the ghost field sdone lists these
+     checkpoints, newest first (a checkpoint() call that crashed before its rename is the in-flight one).
+   * all theorems hold for every codec with decode (encode c) = Some c (and, where stated, with no proper
+     prefix of an encoding decoding); Run.v's evaluation codec is one (toy_roundtrip, toy_prefix_free). *)
+From Coq Require Import Sorting.Sorted.
+From VP Require Import Base.Tactics Store.Model Store.Run Store.ProofsFs Store.ProofsMgr Store.ProofsC21.
+Open Scope N_scope.
+
+(* After any history of saves, restarts and crashes at any point (any length, any max >= 1), recovery
+   returns the newest completely written checkpoint (None iff none was ever completely written). *)
+Theorem C21_recover_newest_complete :
+  forall encode decode, codec_roundtrip encode decode ->
+  forall max evs, (1 <= max)%nat -> Forall ev_clean evs ->
+    recover decode (sfs (run encode max evs)) = Ok (hd_error (sdone (run encode max evs))).
+Proof. exact recover_newest_complete. Qed.
+
+(* A checkpoint() that returned is what recovery returns right afterwards. *)
+Theorem C21_acknowledged_recovered :
+  forall encode decode, codec_roundtrip encode decode ->
+  forall max evs d n, (1 <= max)%nat -> Forall ev_clean evs ->
+    smgr (run encode max evs) = Some n ->
+    recover decode (sfs (run encode max (evs ++ [ESave d]))) = Ok (Some (mkCk n d)).
+Proof. exact acknowledged_recovered. Qed.
+
+(* With unreadable bytes put in place of newest files at any points of the history as well: recovery
+   never fails, and what it returns was completely written, is stored in full, and is the newest
+   readable stored checkpoint (never a partial one). *)
+Theorem C21_never_partial :
+  forall encode decode, codec_roundtrip encode decode ->
+  forall max evs, (1 <= max)%nat -> Forall (ev_ok decode) evs ->
+    let s := run encode max evs in
+    exists r, recover decode (sfs s) = Ok r /\
+      (forall c, r = Some c ->
+         In c (sdone s) /\ fs_get (sfs s) (FCk (cid c)) = Some (encode c) /\
+         (forall id b, cid c < id -> fs_get (sfs s) (FCk id) = Some b -> decode b = None)) /\
+      (r = None -> forall id b, fs_get (sfs s) (FCk id) = Some b -> decode b = None).
+Proof. exact recover_newest_readable. Qed.
+
+(* The newest stored checkpoint is unreadable and the previous one is still stored: recovery returns
+   the previous one. *)
+Theorem C21_older_recovered_when_newest_unreadable :
+  forall encode decode, codec_roundtrip encode decode ->
+  forall max evs b c1 c2 D, (1 <= max)%nat -> Forall ev_clean evs ->
+    decode b = None ->
+    sdone (run encode max evs) = c1 :: c2 :: D ->
+    fs_get (sfs (run encode max evs)) (FCk (cid c2)) <> None ->
+    recover decode (sfs (run encode max (evs ++ [ECorrupt b]))) = Ok (Some c2).
+Proof. exact older_recovered. Qed.
+
+Example C21_older_hypotheses_satisfiable :
+  let evs := [ENew; ESave 5; ECrash 6 1 None; ENew; ECrash 7 2 (Some 3%nat); ENew; ESave 8] in
+  Forall ev_clean evs /\ toy_decode [9] = None /\
+  sdone (run toy_encode 2 evs) = [mkCk 3 8; mkCk 2 7; mkCk 1 5] /\
+  fs_get (sfs (run toy_encode 2 evs)) (FCk 2) <> None /\
+  recover toy_decode (sfs (run toy_encode 2 (evs ++ [ECorrupt [9]]))) = Ok (Some (mkCk 2 7)).
+Proof. vm_compute. repeat split; try discriminate; repeat constructor. Qed.
+
+(* At most max checkpoints are kept after every completed checkpoint(); in every state, including
+   crash states, at most max + (number of crashed checkpoint() calls since the last completed one). *)
+Theorem C21_bound_after_completed :
+  forall encode max evs d, smgr (run encode max evs) <> None ->
+    (length (list_ckpts (sfs (run encode max (evs ++ [ESave d])))) <= max)%nat.
+Proof. exact bound_after_completed. Qed.
+
+Theorem C21_bound_all_states :
+  forall encode max evs,
+    (length (list_ckpts (sfs (run encode max evs))) <= max + spend (run encode max evs))%nat.
+Proof. exact bound_all_states. Qed.
+
+(* Ids of completely written checkpoints strictly increase over the whole history, across restarts,
+   crashes and faults (sdone is newest first). *)
+Theorem C21_ids_increase :
+  forall encode decode, codec_roundtrip encode decode ->
+  forall max evs, (1 <= max)%nat -> Forall (ev_ok decode) evs ->
+    StronglySorted (fun a b => cid b < cid a) (sdone (run encode max evs)).
+Proof. exact ids_increase. Qed.
+
+(* No file in the directory (final or temporary) that can be read is a partial write. *)
+Theorem C21_readable_files_complete :
+  forall encode decode, codec_roundtrip encode decode -> codec_prefix_free encode decode ->
+  forall max evs p b c, Forall (ev_ok decode) evs ->
+    fs_get (sfs (run encode max evs)) p = Some b -> decode b = Some c -> b = encode c.
+Proof. exact readable_files_complete. Qed.
+
+(* The codec used for evaluation satisfies the contract, so the theorems are not vacuous. *)
+Theorem C21_eval_codec_contract : codec_roundtrip toy_encode toy_decode /\ codec_prefix_free toy_encode toy_decode.
+Proof. exact (conj toy_roundtrip toy_prefix_free). Qed.
